@@ -86,7 +86,7 @@ def digest(res):
 
 def run_state(st):
     t = st["t"]
-    t = {"bi": t["bi"], "rows": list(t["rows"]), "nopid": t["nopid"], "dropped": sorted(t["dropped"]), "dup": sorted(t["dup"]), "dtype": dict(t["dtype"])}
+    t = {"bi": t["bi"], "ord": t.get("ord", 1), "rows": list(t["rows"]), "nopid": t["nopid"], "dropped": sorted(t["dropped"]), "dup": sorted(t["dup"]), "dtype": dict(t["dtype"])}
     base_t = dict(t)
     ev = {"t": t, "hist": [{"f": h["f"], "a": [str(x) for x in h["a"]]} for h in st["hist"]], "raised": False, "warned": False, "digest": "", "base": "", "error": ""}
     try:
@@ -113,7 +113,7 @@ def run(tier):
     rnd = random.Random(chk.seed * 65537 + 20)
     quick = tier == "quick"
     dump = chk.work / "val"
-    res = tlc.run("MC_Validate", "MC_Validate.cfg", workdir=chk.work, workers=16, dump=dump, timeout=1800, coverage=True)
+    res = tlc.run("MC_Validate", "MC_Validate.cfg" if quick else "MC_Validate_thorough.cfg", workdir=chk.work, workers=16, dump=dump, timeout=1800, coverage=True)
     if res.violated:
         chk.violation(f"C20|spec-theorem|{','.join(res.violated)}", "a fault action leaves the table Valid or a benign action breaks it (fault model error)", {"out": res.out[-2500:]})
         return chk.finish()
@@ -129,9 +129,9 @@ def run(tier):
     chosen = base + single + rnd.sample(double, min(len(double), 400 if quick else 6000)) + rnd.sample(triple, min(len(triple), 100 if quick else 3000))
     events = pool_map(run_state, chosen, chunksize=8)
     # base digests: results for the un-injected base table with the same base index
-    bd = {e["t"]["bi"]: e["digest"] for e in events if not e["hist"]}
+    bd = {(e["t"]["bi"], e["t"]["ord"]): e["digest"] for e in events if not e["hist"]}
     for e in events:
-        e["base"] = bd.get(e["t"]["bi"], "")
+        e["base"] = bd.get((e["t"]["bi"], e["t"]["ord"]), "")
     chk.count(len(events))
     tf, of = chk.work / "val_trace.json", chk.work / "val_out.json"
     tlc.write_json(tf, events)
@@ -159,7 +159,7 @@ def run(tier):
     for e in events[4:7]:
         chk.sample({"faults": e["hist"], "rows": e["t"]["rows"], "raised": e["raised"], "error": e["error"]})
     chk.cov["rule"] = (
-        "tables = reachable states of MC_Validate: 4 base tables x every single fault (9 classes) at every eligible cell (all), pairs of faults and fault+benign combinations (seeded sample in quick, larger in thorough); "
+        "tables = reachable states of MC_Validate: 4 base tables (the two-household one in 2 row orders in quick, 6 in thorough; members of a household need not be adjacent) x every single fault (9 classes) at every eligible cell (all), pairs of faults and fault+benign combinations (seeded sample in quick, larger in thorough); "
         "each passed to compute_taxes_and_transfers with the default targets at 2023-01-01; distinct_nontrivial = distinct injected tables"
     )
     chk.cov["exhaustive"] = False
